@@ -74,10 +74,40 @@ def asdict(x):
     return {'a': fsum(x) % 3, 'b': x}
 
 
-MAPS = {'addk': addk, 'asdict': asdict, 'fsum': fsum, 'inc': inc, 'dbl': dbl, 'half': half, 'mod3': mod3, 'neg': neg,
+def x_pair(x):
+    return (x, x)
+
+
+def x_nonefirst(x):
+    return (None, x)
+
+
+def x_totuple(x):
+    return x if isinstance(x, tuple) and x else (x,)
+
+
+def x_isnone(x):
+    return x is None
+
+
+def x_notnone(x):
+    return x is not None
+
+
+def x_type(x):
+    return type(x).__name__
+
+
+def x_repr(x):
+    return repr(x)
+
+
+# functions of the "exotic value" programs (vf/progs.py XGen): total on None, falsy values, strings and nested tuples.
+# They are looked up through the same tables as the others; the ordinary generator draws from the STD_* name lists.
+MAPS = {'x_pair': x_pair, 'x_nonefirst': x_nonefirst, 'x_totuple': x_totuple, 'addk': addk, 'asdict': asdict, 'fsum': fsum, 'inc': inc, 'dbl': dbl, 'half': half, 'mod3': mod3, 'neg': neg,
         'wrap': wrap, 'pair': pair, 'triple': triple, 'rep': rep, 'size': size, 'ident': ident}
 # output kind of each map function: 'same' keeps the input kind
-MAP_KIND = {'addk': 'int', 'asdict': 'dict', 'fsum': 'int', 'inc': 'same', 'dbl': 'int', 'half': 'int', 'mod3': 'int', 'neg': 'int',
+MAP_KIND = {'x_pair': ('tup', 2), 'x_nonefirst': ('tup', 2), 'x_totuple': ('tup', 1), 'addk': 'int', 'asdict': 'dict', 'fsum': 'int', 'inc': 'same', 'dbl': 'int', 'half': 'int', 'mod3': 'int', 'neg': 'int',
             'wrap': ('tup', 1), 'pair': ('tup', 2), 'triple': ('tup', 3), 'rep': ('tup', None),
             'size': 'int', 'ident': 'same'}
 
@@ -107,7 +137,7 @@ def gtk(x, k=0, strict=True):
     return fsum(x) > k if strict else fsum(x) >= k
 
 
-PREDS = {'gtk': gtk, 'even': even, 'odd': odd, 'not3': not3, 'pos': pos, 'small': small, 'none': None}
+PREDS = {'x_isnone': x_isnone, 'x_notnone': x_notnone, 'gtk': gtk, 'even': even, 'odd': odd, 'not3': not3, 'pos': pos, 'small': small, 'none': None}
 
 
 def add(s, x):
@@ -135,7 +165,15 @@ def cnt_rs(s, x):
     return n, n * 100 + fsum(x) % 7
 
 
-ACCS = {'add': (add, False), 'cat': (cat, False), 'mx': (mx, False),
+def x_last(s, x):
+    return x
+
+
+def x_last_rs(s, x):
+    return x, (s, x)
+
+
+ACCS = {'x_last': (x_last, False), 'x_last_rs': (x_last_rs, True), 'add': (add, False), 'cat': (cat, False), 'mx': (mx, False),
         'add_rs': (add_rs, True), 'cnt_rs': (cnt_rs, True)}
 
 
@@ -153,8 +191,13 @@ def first(*a):
 
 STARS = {'sm': sm, 'tup': tup, 'first': first}
 
-KEYS = {'fsum': fsum, 'mod2': lambda x: fsum(x) % 2, 'mod3': mod3, 'ident': ident,
+KEYS = {'x_type': x_type, 'x_repr': x_repr, 'x_isnone': x_isnone, 'fsum': fsum, 'mod2': lambda x: fsum(x) % 2, 'mod3': mod3, 'ident': ident,
         'size': size}
+
+
+STD_MAPS = [k for k in MAPS if not k.startswith('x_')]
+STD_PREDS = [k for k in PREDS if not k.startswith('x_')]
+STD_ACCS = [k for k in ACCS if not k.startswith('x_')]
 
 
 class InjectedFault(Exception):
